@@ -200,7 +200,7 @@ func mapOrderInDecl(c *Ctx, r *Report, info *types.Info, fd *ast.FuncDecl, rule 
 				idx++
 				if why, ok := exceptions[fmt.Sprintf("%s/range-%s", fname, exprStr(x.X))]; ok {
 					r.ok(rule, key, c.pos(x.Pos()), "frozen exception: "+why)
-				} else if fact := singletonFact(info, fd, x); fact != "" {
+				} else if fact := atMostOneFact(c, info, fd, x); fact != "" {
 					r.ok(rule, key, c.pos(x.Pos()), "map has at most one entry here ("+fact+"): iteration order is immaterial")
 				} else {
 					verdict, detail := mapRangeBody(c, info, x, rest)
